@@ -58,6 +58,25 @@ def items(tier, seed):
     for i, c in enumerate(out):
         if i % 5 == 0 and c["op"] in ("mul", "div", "self_div") and "pow" not in json.dumps(c):
             c["arr"] = ["numpy", "list", "tuple"][(i // 5) % 3]
+    # every scale-only unit of the table against the base unit of its quantity type, both orders (unit matching inside one quantity type)
+    from .common import get_db
+
+    db = get_db("default")
+    for qt in db.GetQuantityTypes():
+        if qt not in db.categories_to_quantity_types or qt == "dimensionless":
+            continue
+        us = [u for u in db.GetUnits(qt) if getattr(db.GetInfo(qt, u).tobase, "__a__", 0.0) == 0.0 and getattr(db.GetInfo(qt, u).tobase, "__d__", 0.0) == 0.0]
+        if not us or us[0] != db.GetUnits(qt)[0]:
+            continue
+        for j, u in enumerate(us[1:]):
+            out.append({"A": ["leaf", u, qt], "B": ["leaf", us[0], qt], "op": "table", "sub": ("mul", "div")[j % 2], "qt": qt})
+            out.append({"A": ["leaf", us[0], qt], "B": ["leaf", u, qt], "op": "table", "sub": ("div", "mul")[j % 2], "qt": qt})
+    # an operand of the quantity type 'dimensionless' (%, ppm, -) is an ordinary factor: its exponent and its unit factor stay in the result
+    for du in ("%", "ppm", "-", "g/kg"):
+        for nm in ("len", "vel", "area", "time"):
+            A = rng.choice(pool[nm]) if nm in pool else exprs.instances(nm, n_units=2)[0]
+            for sub_ in ("x*p", "p*x", "x/p", "p/x"):
+                out.append({"A": A, "B": ["leaf", du, "dimensionless"], "op": "dimless_type", "sub": sub_, "arr": (None, "list", "numpy")[len(out) % 3]})
     # empty Array operands: only the dimension clauses apply
     for i in range(30 if tier == "quick" else 400):
         A, B = rng.choice(pool[rng.choice(names)]), rng.choice(pool[rng.choice(names)])
@@ -77,7 +96,9 @@ def items(tier, seed):
 def inputs(cfg):
     if cfg["op"] == "aux_int_dtype":
         return {"x0": "real"}
-    nb = n_leaves(cfg["B"]) if cfg["B"] is not None and cfg["op"] != "self_div" else 0  # (dimless_* ops use both operands)
+    nb = n_leaves(cfg["B"]) if cfg["B"] is not None and cfg["op"] != "self_div" else 0
+    if cfg["op"] in ("table", "dimless_type"):
+        nb = 1  # (dimless_* ops use both operands)
     return {"x%d" % i: "real" for i in range(n_leaves(cfg["A"]) + nb)}
 
 
@@ -125,6 +146,17 @@ def run(cfg, V):
     if op == "self_div":
         r = A / A
         return {"A": _vq(A), "r": _vq(r), "cls": type(r).__name__, "qt_str": r.GetQuantityType()}
+    if op in ("table", "dimless_type"):
+        from barril.units import Scalar
+
+        if op == "table":
+            A = Scalar(V["x0"], cfg["A"][1], cfg["qt"])
+            B = Scalar(V["x1"], cfg["B"][1], cfg["qt"])
+            r = A * B if cfg["sub"] == "mul" else A / B
+            return {"A": _vq(A), "B": _vq(B), "r": _vq(r), "comm": _vq(B * A) if cfg["sub"] == "mul" else None, "back": _vq(r / B if cfg["sub"] == "mul" else r * B), "cls": type(r).__name__}
+        P_ = leaf_class(cfg.get("arr"))(V["x%d" % (ctr[0])], cfg["B"][1], "dimensionless")
+        r = {"x*p": lambda: A * P_, "p*x": lambda: P_ * A, "x/p": lambda: A / P_, "p/x": lambda: P_ / A}[cfg["sub"]]()
+        return {"A": _vq(A), "B": _vq(P_), "r": _vq(r), "cls": type(r).__name__}
     B = build(cfg["B"], V, ctr, cls)
     if cfg.get("fixed_right"):
         from barril.units import FixedArray
@@ -186,6 +218,26 @@ def props(cfg, T, obs):
         got, want, unit, wunit = obs["aux"]
         return [("auxiliary, concrete (not solver-decided): integer-dtype ndarray * or / fractional list equals the Scalar results",
                  unit == wunit and len(got) == 3 and all(abs(a - b) <= 1e-12 * (abs(a) + abs(b) + 1) for a, b in zip(got, want)))]
+    if op == "table":
+        qt = cfg["qt"]
+        mA, mB, mr = mag_of(*obs["A"]), mag_of(*obs["B"]), mag_of(*obs["r"])
+        dr = dims_of(obs["r"][1])
+        P = [("result is a Scalar", obs["cls"] == "Scalar"), ("zero exponents disappear", _wellformed(obs["r"][1]))]
+        if cfg["sub"] == "mul":
+            P += [("dims(a*b)=dims(a)+dims(b) (table units)", dr == {qt: 2}), ("mag(a*b)~mag(a)*mag(b) (table units, magnitudes from the to-base factors)", approx(mr, mA * mB)),
+                  ("a*b~b*a (table units)", approx(mr, mag_of(*obs["comm"]))), ("(a*b)/b~a (table units)", approx(mag_of(*obs["back"]), mA))]
+        else:
+            P += [("a/b of one quantity type is dimensionless (table units)", dr == {}), ("mag(a/b)~mag(a)/mag(b) (table units, magnitudes from the to-base factors)", approx(mr, mA / mB)),
+                  ("(a/b)*b~a (table units)", approx(mag_of(*obs["back"]), mA))]
+        return P
+    if op == "dimless_type":
+        mA, mB, mr = mag_of(*obs["A"]), mag_of(*obs["B"]), mag_of(*obs["r"])
+        dA, dr = dims_of(obs["A"][1]), dims_of(obs["r"][1])
+        sub_ = cfg["sub"]
+        want_d = _addd(dA, {"dimensionless": 1}, 1) if sub_ in ("x*p", "p*x") else _addd(dA, {"dimensionless": 1}, -1) if sub_ == "x/p" else _addd({"dimensionless": 1}, dA, -1)
+        want_m = mA * mB if sub_ in ("x*p", "p*x") else mA / mB if sub_ == "x/p" else mB / mA
+        return [("an operand of the quantity type 'dimensionless' keeps its exponent in the result", dr == want_d),
+                ("... and its unit factor in the magnitude (50 % of 2 m is 1 m)", approx(mr, want_m)), ("result class", obs["cls"] == ("Array" if cfg.get("arr") else "Scalar"))]
     if cfg.get("empty"):
         dA, dr = dims_of(obs["A"][1]), dims_of(obs["r"][1])
         P = [("result is an Array", obs["cls"] == "Array"), ("zero exponents disappear", _wellformed(obs["r"][1])), ("operand dims match the dimensional model", dA == model_dims(cfg["A"]))]
@@ -247,5 +299,5 @@ def props(cfg, T, obs):
 
 
 def finding_key(cfg, name):
-    sym = {"mul": "*", "div": "/", "fdiv": "//", "pow": "**", "self_div": "/self", "dimless_div": "(a/a)/", "dimless_fdiv": "(a/a)//", "dimless_mul": "(a/a)*", "div_dimless": "b/(a/a)", "aux_int_dtype": "aux_int_dtype " + str(cfg.get("aop")) + " " + str(cfg.get("kb"))}[cfg["op"]] + (" empty" if cfg.get("empty") else "") + (" FixedArray right" if cfg.get("fixed_right") else "") + (" [Array.%s]" % cfg["arr"] if cfg.get("arr") else "")
+    sym = {"mul": "*", "div": "/", "fdiv": "//", "pow": "**", "self_div": "/self", "dimless_div": "(a/a)/", "dimless_fdiv": "(a/a)//", "dimless_mul": "(a/a)*", "div_dimless": "b/(a/a)", "aux_int_dtype": "aux_int_dtype " + str(cfg.get("aop")) + " " + str(cfg.get("kb")), "table": "table " + str(cfg.get("sub")), "dimless_type": str(cfg.get("sub"))}[cfg["op"]] + (" empty" if cfg.get("empty") else "") + (" FixedArray right" if cfg.get("fixed_right") else "") + (" [Array.%s]" % cfg["arr"] if cfg.get("arr") else "")
     return "%s %s %s :: %s" % (spec_str(cfg["A"]), sym, spec_str(cfg["B"]) if cfg["B"] else cfg.get("n"), name)
